@@ -220,6 +220,14 @@ def Commissioning(available_addresses=None, readdress=False,
             if low == "clash":
                 yield progress(message="Multiple ballasts picked the same "
                                "random address; restarting")
+                if not dry_run:
+                    # Withdrawn gear still obeys RANDOMISE and PROGRAM
+                    # SHORT ADDRESS.  Restart the process for unaddressed
+                    # gear only, so that gear which already has its
+                    # address cannot draw the random address of - and
+                    # then be programmed together with - another unit.
+                    yield Terminate()
+                    yield Initialise(broadcast=False)
                 break
             if low is None:
                 finished = True
